@@ -163,6 +163,13 @@ func featgenCases() []packCase {
 			add(fmt.Sprint("optchain:literal-base:", i), "() => "+strings.ReplaceAll(form, "%B", base), false)
 		}
 	}
+	// a parameter default that throws must reject the promise, never throw at the call
+	for i, dflt := range []string{"(() => { throw new Error(\"d\"); })()", "{[thrower()]: 1}", "[{[thrower()]: 1}]", "`${throwerObj}`", "-throwerObj", "throwerObj + 1", "throwerObj.p", "new Thrower()", "nothing.b", "{a: 1, ...throwerSpread()}", "[...throwerSpread()]", "(0, thrower)()", "{k: thrower()}"} {
+		pre := "function thrower() { throw new RangeError(\"thrown by default\"); } var throwerObj = {valueOf() { throw new RangeError(\"valueOf\"); }, toString() { throw new RangeError(\"toString\"); }, get p() { throw new RangeError(\"getter\"); }}; function Thrower() { throw new RangeError(\"ctor\"); } var nothing; function throwerSpread() { throw new RangeError(\"spread\"); } "
+		kinds := []string{"async function f(a, o = %D) { return [a, o]; }", "var f = async (a, o = %D) => [a, o];", "var f = {async m(a, o = %D) { return [a, o]; }}.m;", "async function f({x} = {}, o = %D) { return x; }"}
+		kind := strings.ReplaceAll(kinds[i%len(kinds)], "%D", dflt)
+		add(fmt.Sprint("async:param-default-throws:", i), "async () => { "+pre+kind+" var how = \"sync-throw\"; try { var pr = f(1); how = \"returned\"; $("+p()+", typeof pr.then); await pr.then(v => { how = \"resolved\"; }, e => { how = \"rejected:\" + e.message; }); } catch (e) { how += \":\" + e.message; } return how; }", true)
+	}
 	// an async arrow whose only use of "this" is implicit, through super property access
 	add("async:arrow-super-implicit-this", "async () => { class B { get x() { return this.v; } set x(v) { this.w = v; } m2() { return this.v; } } class A extends B { v = "+P("7")+"; a() { return (async () => super.x)(); } b() { return (async () => { super.x = 5; return 1; })(); } c() { return (async () => super.m2())(); } } var o = new A(); return [await o.a(), await o.b(), o.w, await o.c()]; }", true)
 	add("class:field-define-semantics", "() => { class A { set x(v) { $("+p()+", \"setter\", v); } get ro() { return \"proto\"; } } class B extends A { x = 1; ro = 2; } var b = new B(); return [Object.getOwnPropertyDescriptor(b, \"x\"), b.ro]; }", false)
